@@ -200,16 +200,19 @@ def tlc_trace_one(d, module, cfg, timeout):
     p = run(cmd, cwd=d, timeout=timeout, check=False, extra_env=jopts)
     out = p.stdout or ""
     res = os.path.join(d, "result.json")
-    if p.returncode != 0 and not os.path.exists(res) and not any(l.startswith("Error") for l in out.splitlines()):
+    died = p.returncode != 0 and not os.path.exists(res) and not any(l.startswith("Error") for l in out.splitlines())
+    heap = "OutOfMemoryError" in out or "Java heap space" in out or "GC overhead" in out
+    if died or (heap and not os.path.exists(res)):
         with _retry_lock:
             shutil.rmtree(os.path.join(d, "md"), ignore_errors=True)
-            p = run(cmd, cwd=d, timeout=timeout, check=False, extra_env={"JAVA_TOOL_OPTIONS": "-Xss512m -Xmx8g"})
+            p = run(cmd, cwd=d, timeout=timeout, check=False, extra_env={"JAVA_TOOL_OPTIONS": "-Xss512m -Xmx14g"})
             out = p.stdout or ""
     with open(os.path.join(d, "tlc.log"), "w") as f:
         f.write(out)
     if p.returncode != 0 or "No error has been found" not in out or not os.path.exists(res):
         errs = [l for l in out.splitlines() if l.startswith("Error")][:4]
-        raise Inconclusive("TLC trace validation failed in %s: %s" % (d, "; ".join(e[:300] for e in errs) or out[-1200:]))
+        cause = [l for l in out.splitlines() if "but it produced the following error" in l or "OutOfMemory" in l or "heap space" in l or "Cannot convert" in l][:3]
+        raise Inconclusive("TLC trace validation failed in %s: %s %s" % (d, "; ".join(e[:300] for e in errs) or out[-1200:], " / ".join(cause)))
     with open(res) as f:
         r = json.load(f)
     r["seconds"] = round(time.time() - t0, 1)
